@@ -326,3 +326,42 @@ def c05_oracle_lemma(mysql: int, s: str) -> int:
     """
     dec = decode(encode(s, mysql == 1), mysql == 1)
     return OK if (dec is not None and dec == s) else VIOL
+
+
+class _SE(str, Enum):
+    PLAIN = "plain"
+    QUOTE = "it's"
+    BACK = "back" + chr(92) + "slash"
+    STAR = "*"
+
+
+@harness(
+    prop="C05",
+    cubes={"pos": range(NPOS)},
+    bounds={"quick": {}, "thorough": {}},
+    timeout={"quick": 60, "thorough": 120},
+    witness=[dict(pos=1, d=2, m=1)],
+    doc="members of a str-mixin enum (class E(str, Enum)) with quote / backslash / star values at every position x dialect: "
+        "the literal decodes to the member's value",
+)
+def c05_str_enum(pos: int, d: int, m: int) -> int:
+    """
+    bound: 0 <= d <= 5 and 0 <= m <= 3
+    """
+    from harness.snapshot import _NoTracing
+    dd = 0
+    for i in range(6):
+        if d == i:
+            dd = i
+    mm = 0
+    for i in range(4):
+        if m == i:
+            mm = i
+    with _NoTracing():
+        member = list(_SE)[mm]
+        out = sql_of(build(pos, dd, member), dd)
+        lit = cut(pos, dd, out, "'" + PROBE + "'")
+        note("sql", out)
+        note("literal", lit)
+        ok = lit is not None and literal_ok(lit, member.value, dd == 1)
+    return verdict(ok, "c05_str_enum", pos=pos, d=dd, m=mm)
